@@ -813,6 +813,7 @@ impl RenderHtml for Raw {
                 let mut new_pos = *position;
                 view.to_html_with_buf(&mut new_buf, &mut new_pos, escape, mark_branches, extra_attrs);
                 buf.push_str(&new_buf);
+                *position = new_pos;
             }
             // SuspenseBoundary::to_html_with_buf renders the fallback
             RawKind::Boundary { fallback, .. } => {
@@ -859,6 +860,7 @@ impl RenderHtml for Raw {
                     extra_attrs,
                 );
                 buf.append(new_buf);
+                *position = new_pos;
             }
             RawKind::Boundary { rx, fallback, content, some, nonce } => {
                 // leptos/src/suspense_component.rs, SuspenseBoundary::to_html_async_with_buf,
